@@ -140,6 +140,20 @@ def family(seed, count):
                 out.append({"a": ("", ("seq", [("op", rep, ("op", "", twice)), ("ref", "ANY")])), "b": ("", ("ref", "c")), "c": ("", cb)})
             out.append({"a": ("", ("alt", [("seq", [twice, ("ref", "a")]), ("ref", "ANY")])), "b": ("", ("ref", "c")), "c": ("", cb)})
             out.append({"a": ("", ("seq", [L("x"), L("y")])), "b": ("", ("ref", "c")), "c": ("", cb), "WHITESPACE": ("_", twice)})
+    # the offending constructs below every operator (the validator reaches nested expressions through its own traversal):
+    # a repetition whose body can match without consuming, and a choice with a non-failing earlier alternative
+    for bd in (("op", "!", L("y")), L(""), ("op", "?", L(" "))):
+        for rep in ("*", "+", "{2,}"):
+            inner = ("seq", [L("x"), ("op", rep, ("op", "", bd))])
+            for ctx in OPS:
+                if not ctx: continue
+                out.append({"a": ("", ("seq", [("op", ctx, ("op", "", inner)), L("w")])), "b": ("", L("y")), "c": ("", L("z"))})
+                out.append({"a": ("", ("seq", [("op", ctx, ("op", "", ("alt", [L("z"), inner]))), L("w")])), "b": ("", L("y")), "c": ("", L("z"))})
+            for c1, c2 in (("{1,2}", "?"), ("?", "{1,2}"), ("{2}", "{,2}"), ("!", "{1,2}"), ("{1,2}", "&")):
+                out.append({"a": ("", ("seq", [("op", c1, ("op", "", ("seq", [("op", c2, ("op", "", inner)), L("v")]))), L("w")])), "b": ("", L("y")), "c": ("", L("z"))})
+    for ctx in OPS:
+        if not ctx: continue
+        out.append({"a": ("", ("seq", [("op", ctx, ("op", "", ("seq", [L("x"), ("op", "", ("alt", [L(""), L("y")]))]))), L("w")])), "b": ("", L("y")), "c": ("", L("z"))})
     # left recursion through a rule that redefines a non-keyword built-in name
     for nm in ("NEWLINE", "ASCII_DIGIT", "LETTER", "NUMBER", "ASCII_ALPHA"):
         out.append({nm: ("", ("alt", [("seq", [("ref", nm), L("+"), L("x")]), L("x")])), "b": ("", L("y"))})
